@@ -1,4 +1,4 @@
-HOOK_COMMITS = ["1a493647ec3b19cd4a14a3dda9c3b59320f27bc6"]
+HOOK_COMMITS = ["1a493647ec3b19cd4a14a3dda9c3b59320f27bc6", "f628127618483cce189eb236975d99ae5da67077"]
 NOT_APPLICABLE = {}
 META = {
     "C01": {
@@ -90,5 +90,11 @@ META = {
         "design_ref": "DESIGN.md §7 C06",
         "note": "Trusted: Lean kernel; hedzr/is term/color helpers (ESC[<n>m, ESC[0m); the translator is the identity on the domain by the repaired fast path; widths are byte counts.",
         "technique": "Lean 4 proofs on the colored encoder model; byte-exact differential run; SGR tracker oracle",
+    },
+    "C09": {
+        "text": "Proof: the encoder model is a pure function of the call, and the regenerated structure of PrintCtx shows every field reset by set/setentry, written before it is read, restored after use or constant (decide over the regenerated field list - a new unreset field breaks it); the pool bracket is regenerated. The tie to the recycled-buffer implementation is the byte-exact correspondence of probes replayed after different histories and after adversarially seeded pool contents, which must equal each other and the model.",
+        "design_ref": "DESIGN.md §7 C09",
+        "note": "Trusted: Lean kernel; extractor; the field classification for non-reset fields (validated by pool seeding); sync.Pool behaviour.",
+        "technique": "Lean 4 (pure-function model + decide over regenerated struct facts); differential replay of probes after varied histories",
     },
 }
